@@ -75,7 +75,7 @@ int __wrap_select(int n, fd_set *r, fd_set *w, fd_set *x, struct timeval *tv)
     if (tv->tv_sec < 0 || tv->tv_usec < 0 || tv->tv_usec >= 1000000L) { errno = EINVAL; return -1; }
     ns = (unsigned long)tv->tv_sec * 1000000000ul + (unsigned long)tv->tv_usec * 1000ul;
     if (hit("select")) {
-        unsigned long slept = ns / 3 + (ns > 2000000 ? 123000 : 0), left = ns - slept;
+        unsigned long slept = ns / 3000 * 1000 + (ns > 2000000 ? 123000 : 0), left = ns - slept;      /* whole microseconds: the time-out has no finer unit */
         if (sleep_left_ns && ns > sleep_left_ns) { left = sleep_left_ns; slept = ns - left; }
         virt_ns += slept; tv->tv_sec = (time_t)(left / 1000000000ul); tv->tv_usec = (suseconds_t)(left % 1000000000ul / 1000ul);
         errno = EINTR; return -1;
